@@ -3,6 +3,8 @@
 
 package cache
 
+import "sync/atomic"
+
 // deleteEntry removes the key if it still holds the given entry.
 //
 // Before go1.20 sync.Map has no conditional delete, this is the best effort.
@@ -10,4 +12,11 @@ func (c *syncMap) deleteEntry(key interface{}, e *TraitEntry) {
 	if cur, ok := c.data.Load(key); ok && cur == interface{}(e) {
 		c.data.Delete(key)
 	}
+}
+
+// expireEntry marks the entry as expired at ts.
+//
+// Before go1.20 sync.Map has no conditional swap, the entry is updated in place.
+func (c *syncMap) expireEntry(_ interface{}, e *TraitEntry, ts int64) {
+	atomic.StoreInt64(&e.E, ts) // Entry may be in use by concurrent readers.
 }
